@@ -957,23 +957,25 @@ class VizierServicer(vizier_service_pb2_grpc.VizierServiceServicer):
       context: Optional[grpc.ServicerContext] = None,
   ) -> vizier_service_pb2.UpdateMetadataResponse:
     """Stores the supplied metadata in the database."""
-    if self._study_is_immutable(request.name):
-      e = custom_errors.ImmutableStudyError(
-          'Study {} is immutable. Cannot update metadata.'.format(request.name)
-      )
-      grpc_util.handle_exception(e, context)
+    # Read-modify-write RPCs (CompleteTrial, AddTrialMeasurement, StopTrial,
+    # SetStudyState) hold this lock while they rewrite a whole trial / study.
+    with self._study_name_to_lock[request.name]:
+      if self._study_is_immutable(request.name):
+        e = custom_errors.ImmutableStudyError(
+            'Study {} is immutable. Cannot update metadata.'.format(
+                request.name
+            )
+        )
+        grpc_util.handle_exception(e, context)
 
-    try:
-      # Read-modify-write RPCs (CompleteTrial, AddTrialMeasurement, StopTrial,
-      # SetStudyState) hold this lock while they rewrite a whole trial / study.
-      with self._study_name_to_lock[request.name]:
+      try:
         self.datastore.update_metadata(
             request.name,
             [x.metadatum for x in request.delta if not x.HasField('trial_id')],
             [x for x in request.delta if x.HasField('trial_id')],
         )
-    except KeyError as e:
-      return vizier_service_pb2.UpdateMetadataResponse(
-          error_details=';'.join(e.args)
-      )
+      except KeyError as e:
+        return vizier_service_pb2.UpdateMetadataResponse(
+            error_details=';'.join(e.args)
+        )
     return vizier_service_pb2.UpdateMetadataResponse()
